@@ -17,6 +17,7 @@ META = {
                     'release at every instruction-level abort point (we decide only that all exits share the one release path)'],
 }
 META['explanation'] += " R04.11 a collection started by a return runs after the returning function's frame was popped."
+META['explanation'] += ' R04.12 every type that lives in a heap box has its arm in Object::free (the types it destroys are exactly those is_heap_allocated answers for).'
 GCN = 'gc::GC::'
 
 
